@@ -48,6 +48,11 @@ def gen_specs(rng, thorough):
                             hist.append(['terminate', True])
                             hist.append(rng.choice([['wait'], ['terminate', True], ['is_alive']]))
                         specs.append({'kind': kind, 'behaviour': beh, 'timeout': timeout, 'ops': hist[:5], 'persistent': persistent})
+        # a child that is unresponsive (stopped) during a first terminate() and comes back during the second one
+        if kind != 'thread':
+            for timeout in (0.3, 1.0):
+                for second in (['terminate', True], ['terminate', False], ['wait']):
+                    specs.append({'kind': kind, 'behaviour': 'resumes', 'timeout': timeout, 'ops': [['terminate', False], second, ['terminate', True], ['is_alive']], 'persistent': False})
         # dead and never-run workers: every short history returns at once
         dead_ops = [['wait'], ['terminate', False], ['is_alive'], ['close']] + ([['terminate', True]] if kind != 'thread' else [])
         hists = list(itertools.product(dead_ops, repeat=2)) + [tuple(rng.choice(dead_ops) for _ in range(4)) for _ in range(3)]
@@ -91,7 +96,7 @@ def check(ctx, res):
             gone = (st in (None, 'Z', 'X')) if kind != 'thread' else (c.get('thread_alive') is False or dead)
             if ret is True and not gone and beh != 'notrun':
                 ctx.fail(f'untruthful-true:{tag}:{name}', f'{kind} worker ({beh}): {name}({timeout}) returned True but the child is still there (state {st})', d)
-            if ret is False and st is None and kind != 'thread' and beh in ('sleep', 'hog', 'stopped', 'stops'):
+            if ret is False and st is None and kind != 'thread' and beh in ('sleep', 'hog', 'stopped', 'stops', 'resumes'):
                 ctx.fail(f'untruthful-false:{tag}:{name}', f'{kind} worker ({beh}): {name}({timeout}) returned False but the child is gone', d)
             if dead and (ret is not True or dt > 1.0):
                 ctx.fail(f'dead-not-immediate:{kind}:{beh}:{name}', f'{kind} worker ({beh}): {name}({timeout}) returned {ret} after {dt} s on a dead/never-run worker', d)
